@@ -364,6 +364,9 @@ Proof.
     + intros Q. inversion Q. subst. intros x Hx. apply Ed, D0, Hx.
 Qed.
 
+Lemma filter_len_le {A} (f : A -> bool) l : length (filter f l) <= length l.
+Proof. induction l as [|x l IHl]; simpl; [lia|]. destruct (f x); simpl; lia. Qed.
+
 Definition unnumbered (g : graph) (st : tstate) : nat :=
   length (filter (fun k => negb (mem_node k (dom st))) (gkeys g)).
 
@@ -422,10 +425,10 @@ Lemma scc_fuel g : scc g <> Err OutOfFuel.
 Proof.
   unfold scc.
   assert (G : forall ns st, visit_all (S (length g)) g ns st <> Err OutOfFuel).
-  { induction ns as [|n r IH]; intros st; simpl; [discriminate|].
+  { induction ns as [|n r IH]; intros st; cbn [visit_all]; [discriminate|].
     destruct (visit (S (length g)) g n st) as [st1|e] eqn:E; [apply IH|].
     intros Q. inversion Q. subst e. eapply visit_fuel; [|exact E].
-    unfold unnumbered, gkeys. pose proof (filter_length_le_all (fun k => negb (mem_node k (dom st))) (map fst g)).
+    unfold unnumbered, gkeys. pose proof (filter_len_le (fun k => negb (mem_node k (dom st))) (map fst g)).
     rewrite map_length in H. lia. }
   specialize (G (gkeys g) (mkT [] [] [])). destruct (visit_all _ _ _ _); [discriminate | congruence].
 Qed.
